@@ -650,12 +650,13 @@ func c10Ccel(r *core.Run, w *world.World) {
 
 func init() {
 	register(&core.Check{
-		ID:    "C10",
-		Level: "exploration",
+		ID:      "C10",
+		Isolate: true,
+		Level:   "exploration",
 		Rule: "six kinds of runs over one seeded world each: (0) the device returns EVERY truncation length of the valid quote (quick: every 3rd, three runs tile all); (1) every boundary value (28 per field) of each of the 9 size/type fields, plus 150 tape-chosen pairs with optional truncation; (2) every single structural mutation of the message found by protobuf reflection (each sub-message nil / empty, each bytes field at 0 / n-1 / n+1 / 2n+3 / unset, RTMR count 0..5, element lengths, each uint32 at 8 values) plus nil / typed-nil / foreign types, through 10 message entry points; (3) 19 arbitrary bodies x 4 routes (+ header variants) and 7 correctly signed but structurally odd documents; (4) 32 arbitrary DER SGX extensions signed by the CA, non-PCK certificates, 9 odd chains; (5) truncated / mutated CCEL logs and tables. Oracle: no panic, returns within a 20 s watchdog. " +
 			"distinct = mutation name / field value / route x response",
 		Assumptions: []string{"coverage-guided fuzzing named in the quantifier is outside this technique and is not done", "panics inside go-eventlog / the standard library would be reported too (none seen) but are the trusted base's"},
-		RealStub: map[string]string{"abi / verify / validate / pcs / rtmr entry points": "real", "guest device, wire, PCS, CA, firmware log": "stub (faulty)", "go-eventlog parser": "real (trusted base)"},
+		RealStub:    map[string]string{"abi / verify / validate / pcs / rtmr entry points": "real", "guest device, wire, PCS, CA, firmware log": "stub (faulty)", "go-eventlog parser": "real (trusted base)"},
 		Runs: func(tier string) int {
 			if tier == "thorough" {
 				return 6 * 100
